@@ -20,7 +20,7 @@ META = dict(
     decides='no deletion on dirty/failed runs; kept points keep their directories and their collector copies',
     undecided='file-system behaviour of remove_dir_all; contents of the collectors\' own per-repository keep decisions',
     trusted_base=['rustc MIR construction + callee resolution'],
-    rules=['K1 dirty / success gates', 'K2 store before collector', 'K4 keep closure', 'monotone keep flag', 'K2 updated -> retain first'],
+    rules=['K1 dirty / success gates', 'K2 store before collector', 'K4 keep closure', 'monotone keep flag', 'K2 updated -> retain first', 'K4 StoredPoint::retain truth table', 'K4 cleanup_ta truth table', 'K3 retain keys canonical'],
 )
 
 
